@@ -116,11 +116,29 @@ func C11(c *Ctx) {
 		}
 		return true
 	}
-	// anchor: the instruction of Exec that leads to `in`
+	// frame: the function in which "derive, start the watcher, run, cancel" is laid out.  It is Exec, or the
+	// helper Exec delegates the run to when that helper also holds the derived context (see below).
+	frame := exec
+	// anchor: the instruction of the frame that leads to `in`
 	var anchor func(in ssa.Instruction, depth int) ssa.Instruction
 	anchor = func(in ssa.Instruction, depth int) ssa.Instruction {
-		if in.Parent() == exec || depth > 4 {
+		if in.Parent() == frame {
 			return in
+		}
+		if depth > 4 {
+			return nil
+		}
+		if par := in.Parent().Parent(); par != nil {
+			// an instruction of a function literal: the place where the literal is made
+			var mk ssa.Instruction
+			ssau.Instrs(par, func(i2 ssa.Instruction) {
+				if mc, ok := i2.(*ssa.MakeClosure); ok && mc.Fn == ssa.Value(in.Parent()) {
+					mk = i2
+				}
+			})
+			if mk != nil {
+				return anchor(mk, depth+1)
+			}
 		}
 		sites := callSitesOf(in.Parent(), pkgFns)
 		if len(sites) != 1 {
@@ -147,24 +165,60 @@ func C11(c *Ctx) {
 		return
 	}
 	ictx, cancel := callResults(derive)[0], callResults(derive)[1]
-	deriveAnchor := anchor(derive, 0)
 	// the call that runs the program
 	fns := append([]*ssa.Function{}, pkgFns...)
 	for _, f := range c.P.FuncsIn("interpreters/ecmascript") {
 		fns = append(fns, f)
 	}
 	runs := runsProgram(fns)
-	var runCall ssa.CallInstruction
-	var runtimeVal ssa.Value
-	ssau.Instrs(exec, func(in ssa.Instruction) {
-		if ci, ok := in.(ssa.CallInstruction); ok {
-			if sc := ci.Common().StaticCallee(); sc != nil && runs[sc] && len(ci.Common().Args) > 0 && ssau.TypeIs(ci.Common().Args[0].Type(), gojaRuntime, "Runtime") {
-				runCall, runtimeVal = ci, ci.Common().Args[0]
-			} else if strings.HasPrefix(ssau.CalleeName(ci), "(*"+gojaRuntime+".Runtime).Run") {
-				runCall, runtimeVal = ci, ci.Common().Args[0]
+	findRun := func(f *ssa.Function) (ssa.CallInstruction, ssa.Value) {
+		var rc ssa.CallInstruction
+		var rt ssa.Value
+		ssau.Instrs(f, func(in ssa.Instruction) {
+			ci, ok := in.(ssa.CallInstruction)
+			if !ok {
+				return
+			}
+			isRun := strings.HasPrefix(ssau.CalleeName(ci), "(*"+gojaRuntime+".Runtime).Run")
+			if sc := ci.Common().StaticCallee(); sc != nil && runs[sc] {
+				isRun = true
+			}
+			if !isRun {
+				return
+			}
+			for _, a := range ci.Common().Args {
+				if ssau.TypeIs(a.Type(), gojaRuntime, "Runtime") {
+					rc, rt = ci, a
+					break
+				}
+			}
+		})
+		return rc, rt
+	}
+	runCall, runtimeVal := findRun(frame)
+	// descend into the helper that runs the program as long as the derived context is created inside it
+	for i := 0; i < 3 && runCall != nil; i++ {
+		g := runCall.Common().StaticCallee()
+		if g == nil || g.Blocks == nil || prog.PkgOf(g) != "interpreters/ecmascript" {
+			break
+		}
+		inside := false
+		for _, h := range pkgClosure(g) {
+			if h == derive.Parent() {
+				inside = true
 			}
 		}
-	})
+		if !inside {
+			break
+		}
+		rc2, rt2 := findRun(g)
+		if rc2 == nil {
+			break
+		}
+		frame, runCall, runtimeVal = g, rc2, rt2
+	}
+	c.R.Fn(fname(frame))
+	deriveAnchor := anchor(derive, 0)
 	if runCall == nil || deriveAnchor == nil {
 		c.R.Break("C11: Exec never runs a program (or the derived context cannot be related to Exec)")
 		return
@@ -299,7 +353,7 @@ func C11(c *Ctx) {
 	} else {
 		cancelBlocks := map[*ssa.BasicBlock]bool{}
 		deferred := false
-		ssau.Instrs(exec, func(in ssa.Instruction) {
+		ssau.Instrs(frame, func(in ssa.Instruction) {
 			switch u := in.(type) {
 			case *ssa.Call:
 				if u.Common().StaticCallee() == nil && !u.Common().IsInvoke() && traces(u.Common().Value, cancel) {
@@ -315,7 +369,7 @@ func C11(c *Ctx) {
 		ok := deferred
 		if !deferred {
 			ok = len(cancelBlocks) > 0
-			for _, b := range exec.Blocks {
+			for _, b := range frame.Blocks {
 				if _, isRet := b.Instrs[len(b.Instrs)-1].(*ssa.Return); !isRet {
 					continue
 				}
@@ -335,7 +389,11 @@ func C11(c *Ctx) {
 
 	// ---- R4
 	okMap := false
-	for _, b := range exec.Blocks {
+	r4Blocks := append([]*ssa.BasicBlock{}, exec.Blocks...)
+	if frame != exec {
+		r4Blocks = append(r4Blocks, frame.Blocks...)
+	}
+	for _, b := range r4Blocks {
 		ret, ok := b.Instrs[len(b.Instrs)-1].(*ssa.Return)
 		if !ok || len(ret.Results) != 2 {
 			continue
